@@ -54,9 +54,9 @@ def coq_iop(op, D, stage):
     elif k == "resample":
         g = f"(OResample (K:=QcF) {qc_vec(op['spacing'])} (1)%Z)"
     elif k == "crop":
-        g = f"(OCrop {zl(op['num'])})"
+        g = f"(OCrop {zl(num_of(op))})"
     elif k == "pad":
-        g = f"(OPad {zl(op['num'])})"
+        g = f"(OPad {zl(num_of(op))})"
     elif k == "center_crop":
         g = f"(OCenterCrop {zl(op['size'])})"
     elif k == "center_pad":
@@ -71,6 +71,11 @@ def coq_iop(op, D, stage):
     else:
         raise KeyError(k)
     return f"(IGrid (K:=QcF) {g} {cv} {kern})" if False else f"(IGrid {g} {cv} {kern})"
+
+
+def num_of(op):
+    """margin=(mx, my, ..) is num=(mx, mx, my, my, ..)"""
+    return op["num"] if "num" in op else [m for m in op["margin"] for _ in range(2)]
 
 
 def coq_state(s):
